@@ -123,6 +123,11 @@ def check_cases(cases: list[dict], rep: Report, known: dict) -> None:
                 rep.known("K3", "libm-backed constructor not exact at an exactly representable result (<= 4 ulp)",
                           {"e": info["e"], "p": info["p"], "impl": repr(impl_v), "exact": str(q)})
                 rep.count("exactness", "K3")
+            elif common.tree_has(e, common.libm_site):
+                # a libm-backed node, the result within the bound (judged above) but not bit-equal to the
+                # model's double run: CPython's compensated sum() carries the one-ulp error of cbrt/log/**
+                # through a cancellation that the model's plain left-to-right sum happens to round away
+                rep.count("exactness", "inexact-libm")
             elif _Fr(f0.v) != q:
                 # the model's own double run is not the exact value either: some intermediate was
                 # rounded on a path that the exact run's "representable" flag does not see (a zero
